@@ -444,6 +444,9 @@ func (fv *FnV) contractCall(st *State, call *ast.CallExpr, key string, fd *ast.F
 			}
 		}
 		for _, cl := range fc.Ensures {
+			if cl.Kind == "expect" {
+				continue
+			}
 			g := fv.evalWithEnv(st, cl, post, pre, oldSt)
 			st.assume(fv.name("ens", g, "Bool"))
 		}
@@ -528,6 +531,12 @@ func VerifyFunc(prog *Program, smt *SMT, eff *Effects, key string, fc *FuncContr
 	bind(fd.Type.Params, false)
 	fv.entry = st.clone()
 	if fc != nil {
+		fv.assertAt = map[ast.Stmt][]*AssertClause{}
+		for _, ac := range fc.Asserts {
+			if s := assignStmtOf(fd.Body, ac.Var, ac.Occ); s != nil {
+				fv.assertAt[s] = append(fv.assertAt[s], ac)
+			}
+		}
 		for _, cl := range fc.Requires {
 			g := fv.evalClauseEntry(st, cl)
 			st.assume(fv.name("req", g, "Bool"))
@@ -599,7 +608,7 @@ func VerifyFunc(prog *Program, smt *SMT, eff *Effects, key string, fc *FuncContr
 				if lab == "" {
 					lab = fmt.Sprintf("%d", i)
 				}
-				fv.oblige(r.st, fmt.Sprintf("ensures[%s]", lab), fmt.Sprintf("ret%d", ri), g, nodeAt(r.pos), cl)
+				fv.oblige(r.st, fmt.Sprintf("%s[%s]", cl.Kind, lab), fmt.Sprintf("ret%d", ri), g, nodeAt(r.pos), cl)
 			}
 			if fc.Panics != nil {
 				g := fv.evalClauseEntry(r.st, fc.Panics)
